@@ -39,7 +39,7 @@ def gen_case(rng, ctx):
     which = rng.random()
     if which < 0.55:
         name = rng.choice(FAMILIES)
-        scls, sch = "family:" + name, gen.scale(ref.PRESETS[name], rng.choice([1.0, 1.0] + gen.SCALES))
+        scls, sch = "family:" + name, gen.scale(ref.PRESETS[name], rng.choice([1.0, 1.0] + gen.SCALES + gen.ODD_SCALES))
     elif which < 0.75:
         scls, sch = "family-lookalike", family_lookalike(rng)
     else:
